@@ -53,6 +53,9 @@ void monotone_ordinals(bool on);
 // strict ledger: a close() of a descriptor the library never opened is recorded as "foreign close"
 // (harnesses that enable this close their own descriptors with raw syscalls)
 void ledger_strict(bool on);
+// a successful getaddrinfo / getnameinfo leaves errno = ENOTTY (errno is unspecified after success; the real
+// resolver does touch it): code that reads errno after formatting an address picks up garbage
+void clobber_errno(bool on);
 
 // statistics
 long count(std::string const &sys);
